@@ -59,9 +59,10 @@ def ends_with_space_comment(seq):
 def run(tier):
     rep = Reporter("C14", tier, "other", "structural rules on the PEG grammar AST (own rust-peg reader, cross-checked with the compiled parser's MIR) + lower-case typestate on keyword lookups + resolved callee of the line splitter")
     rep.explanation = ("Every meaningless respelling named by C14 needs a tolerant spot in the grammar or lexer; each spot is a necessary condition "
-                       "decided on the grammar's AST or on MIR. That *every* construct tolerates *every* combination of respellings (PEG ordered "
-                       "choice interactions) is not decided beyond the rules listed. Out of scope: blank between a prefix operator and its "
-                       "operand, around the '+' of Y+q, before a label, upper-case 0X/0B prefixes and upper-case directive names.")
+                       "decided on the grammar's AST or on MIR. Blanks, tabs and trailing comments are decided by matching: ~80 line forms (every "
+                       "operator of the precedence table among them) x every filling of their gaps, indentation, trailing blanks and comment "
+                       "form must go through the same alternatives of line() with the same captured texts. Out of scope: /* */ comments that "
+                       "span lines, upper-case 0X/0B prefixes and upper-case directive names.")
     rep.trusted = ["rustc nightly MIR", "analysis/peg.py reading of rust-peg 0.8 syntax (cross-checked: rule names and per-rule literal multisets)", "analysis/norm.py"]
     P = G.Program(F.load("dev"))
     g, problems = grammar.load_checked(P)
@@ -76,106 +77,12 @@ def run(tier):
             return None
         return R[rule]["expr"]
 
-    # ---- blanks: space / ne_space classes
-    for rule in ("space", "ne_space"):
-        e = need(rule)
-        if e is None:
-            continue
-        cls = g.find(e, lambda n: n[0] == "class")
-        chars = g.lang(cls[0]) if cls else None
-        ok = chars is not None and {" ", "\t"} <= chars
-        rep.ob("C14.blank|%s-class" % rule, ok, "%s admits both blank and tab" % rule if ok else "%s admits %s: tabs and blanks are not interchangeable" % (rule, sorted(chars) if chars else None))
-    e = need("space")
-    if e is not None:
-        reps = g.find(e, lambda n: n[0] == "rep")
-        ok = bool(reps) and reps[0][2] == 0 and reps[0][3] is None
-        rep.ob("C14.blank|space-any-number", ok, "space() matches any number of blanks, including none" if ok else "space() does not match zero-or-more blanks")
-    # delimiter
-    e = need("delimiter")
-    if e is not None:
-        s = top_seq(e)
-        ok = s[0] == "seq" and collapse([x[1] for x in s[1]]) == [("call", "space"), ("lit", ","), ("call", "space")]
-        rep.ob("C14.blank|delimiter", ok, "operands are separated by  space() \",\" space()" if ok else "operand delimiter is not space() \",\" space()")
-    for rule, what in (("op_list", "instruction_ops"),):
-        e = need(rule)
-        if e is not None:
-            reps = g.find(e, lambda n: n[0] == "rep")
-            ok = bool(reps) and reps[0][4] == ("call", "delimiter")
-            rep.ob("C14.blank|%s" % rule, ok, "the operand list is %s ** delimiter()" % what if ok else "the operand list does not use delimiter() between operands")
-    # infix rows and parenthesised / call atoms
-    try:
-        rows = g.prec_table("expr")
-    except (peg.PegError, KeyError) as ex:
-        rows = []
-        rep.unprovable("C14.blank|expr", "precedence table not readable: %s" % ex)
-    ninf = 0
-    for r in rows:
-        if r["kind"] == "infix":
-            ninf += 1
-            mid = collapse([x[1] for x in r["elems"][1:-1]])
-            tok = r["tokens"][0] if r["tokens"] else "?"
-            ok = len(mid) == 3 and is_call(mid[0], "space") and mid[1][0] == "lit" and is_call(mid[2], "space")
-            rep.ob("C14.blank|infix|%s" % tok, ok, "binary %s tolerates blanks on both sides" % tok if ok else "binary operator %s is not written  space() \"%s\" space()" % (tok, tok))
-        if r["kind"] == "atom" and r["tokens"] == ["(", ")"]:
-            els = collapse([x[1] for x in r["elems"]])
-            # "(" space() e space() ")"   or   name space() "(" space() e space() ")"
-            i = next(k for k, x in enumerate(els) if x == ("lit", "("))
-            j = next(k for k, x in enumerate(els) if x == ("lit", ")"))
-            ok = is_call(els[i + 1], "space") and is_call(els[j - 1], "space") and (i == 0 or is_call(els[i - 1], "space"))
-            kind = "function call" if i > 0 else "parenthesis"
-            rep.ob("C14.blank|%s" % kind, ok, "%s tolerates blanks inside the delimiters" % kind if ok else "%s does not have space() inside its delimiters" % kind)
-    rep.floor("infix rows checked for blanks", ninf, 18)
-    # ---- comments
-    e = need("comment")
-    if e is not None:
-        forms = set()
-        for a in alts(e):
-            for c in g.calls(a):
-                forms.update(l for l in g.literals(R[c]["expr"])[:1]) if c in R else None
-        ok = {";", "//", "/*"} <= forms
-        rep.ob("C14.comment|forms", ok, "comments may start with ; // or /* */" if ok else "comment forms are %s" % sorted(forms))
-        e2 = need("c_comment")
-        if e2 is not None:
-            lits = g.literals(e2)
-            rep.ob("C14.comment|block-closed", "*/" in lits and "/*" in lits, "/* */ comments are delimited on both sides")
-    e = need("line")
-    empties = 0
-    if e is not None:
-        for a in alts(e):
-            s = top_seq(a)
-            if s[0] != "seq":
-                continue
-            calls = [x[1][1] for x in s[1] if x[1][0] == "call"]
-            act = s[2]["text"] if s[2] else ""
-            if "EmptyLine" in act:
-                empties += 1
-                first = s[1][0][1] if s[1] else None
-                rep.ob("C14.comment|empty-line|%d" % empties, first is not None and is_call(first, "space"),
-                       "a %s line may be indented and yields EmptyLine" % ("comment-only" if "comment" in calls else "blank"))
-            elif calls == ["label", "space", "comment"] or (calls and calls[0] == "label"):
-                ok = ends_with_space_comment(s)
-                rep.ob("C14.comment|label-line", ok, "a label-only line may end in blanks and a comment" if ok else "a label-only line does not end in space() comment()?")
-        rep.ob("C14.comment|empty-lines", empties >= 2, "blank lines and comment-only lines are both accepted (%d EmptyLine alternatives)" % empties)
-    for rule, parts in (("instruction_line", ["operation", "op_list"]), ("directive_line", ["directive", "directive_ops"])):
-        e = need(rule)
-        if e is None:
-            continue
-        s = top_seq(e)
-        ok = ends_with_space_comment(s)
-        rep.ob("C14.comment|%s" % rule, ok, "%s may end in blanks and a comment" % rule if ok else "%s does not end in space() comment()?" % rule)
-        # label? space() head space() operands space() comment()?
-        els = collapse([x[1] for x in s[1]]) if s[0] == "seq" else []
-        shape = []
-        for x in els:
-            if x[0] == "opt" and x[1][0] == "call":
-                shape.append(x[1][1] + "?")
-            elif x[0] == "call":
-                shape.append(x[1])
-            else:
-                shape.append(x[0])
-        want = ["label?", "space", parts[0], "space", parts[1], "space", "comment?"]
-        rep.ob("C14.blank|%s" % rule, shape == want, "%s = label? space() %s space() %s space() comment()?" % (rule, parts[0], parts[1]) if shape == want else
-               "%s is %s; label, %s, operands and comment are not all separated by space()" % (rule, shape, parts[0]))
+    # ---- blanks, tabs and comments: decided by matching every layout variant of every line form against the grammar (layout_match.py);
+    # the earlier rules on the *shape* of the grammar (space() on both sides of each infix token, line = label? space() ...) were
+    # withdrawn: a grammar that tolerates more (a blank before a label, a comment after a block comment) tripped them.
+    import layout_match
+    layout_match.use_conditions(P)
+    layout_match.check(g, rep, "C14.layout")
     # ---- case: character classes
     for rule, want, what in (("reg8", {"r", "R"}, "register prefix"), ("reg16", {"x", "y", "z", "X", "Y", "Z"}, "pointer register names")):
         e = need(rule)
